@@ -20,10 +20,10 @@ res() { echo "$P-$V: $*"; }
 git apply --check $SRC/patch.diff 2>/dev/null || { res "patch does not apply to current HEAD"; exit 1; }
 # (a) clean + demo passes
 cp $SRC/demo_test.go $dir/zz_seed_demo_test.go
-if ! go test $RACEFLAG -vet=off -count=1 -timeout 10m -run "^${testname}\$" ./$dir >/tmp/seed_$P$V.a.log 2>&1; then res "demo FAILS on clean tree"; exit 1; fi
+if ! go test ${RACEFLAG:-} -vet=off -count=1 -timeout 10m -run "^${testname}\$" ./$dir >/tmp/seed_$P$V.a.log 2>&1; then res "demo FAILS on clean tree"; exit 1; fi
 # (b) patched + demo fails
 git apply $SRC/patch.diff
-if go test $RACEFLAG -vet=off -count=1 -timeout 10m -run "^${testname}\$" ./$dir >/tmp/seed_$P$V.b.log 2>&1; then res "demo PASSES on patched tree"; exit 1; fi
+if go test ${RACEFLAG:-} -vet=off -count=1 -timeout 10m -run "^${testname}\$" ./$dir >/tmp/seed_$P$V.b.log 2>&1; then res "demo PASSES on patched tree"; exit 1; fi
 # (c) patched + full suite passes
 rm $dir/zz_seed_demo_test.go
 if ! go test -vet=off -count=1 -timeout 25m . ./commit >/tmp/seed_$P$V.c.log 2>&1; then res "existing suite FAILS with the patch"; exit 1; fi
